@@ -1,0 +1,15 @@
+//go:build verif
+
+// Contracts for package internal (comment-only; read by /verif/govc).
+
+package internal
+
+//@ type Done invariant [ch-made] self.ch != nil
+
+//@ func NewDone
+//@   ensures [nonnil] result != nil
+//@ func (*Done).Done
+//@   assigns nothing
+//@   ensures [nonnil] result != nil
+//@ func (*Done).Shutdown
+//@   assigns d.ch, d.mutex
